@@ -214,6 +214,10 @@ impl SendStream {
             return Ok(());
         }
         conn.inner.send_stream(self.stream).reset(error_code)?;
+        // Pending `stopped` futures must observe that the stream is now closed
+        if let Some(notify) = conn.stopped.remove(&self.stream) {
+            notify.notify_waiters();
+        }
         conn.wake();
         Ok(())
     }
@@ -248,7 +252,8 @@ impl SendStream {
     /// Yields `Some` with the stop error code if the peer stops the stream. Yields `None` if the
     /// local side [`finish()`](Self::finish)es the stream and then the peer acknowledges receipt
     /// of all stream data (although not necessarily the processing of it), after which the peer
-    /// closing the stream is no longer meaningful.
+    /// closing the stream is no longer meaningful. Also yields `None` once the local side
+    /// [`reset()`](Self::reset)s a stream that the peer had not stopped.
     ///
     /// For a variety of reasons, the peer may not send acknowledgements immediately upon receiving
     /// data. As such, relying on `stopped` to know when the peer has read a stream to completion
